@@ -6,7 +6,7 @@
        (that is C15's theorem; expressions are opaque here);
      * `... < 2 ^ 64`: the unit fits the address space (usize sums cannot overflow in a running program);
        the model keeps the overflow checks, so this has to be said. *)
-From Coq Require Import List NArith ZArith Bool Permutation.
+From Coq Require Import List NArith ZArith Bool Permutation Lia.
 From Coq.Strings Require Import Byte.
 Require Import GV.Base.Res GV.Base.Byt GV.Base.Ints GV.Model.Leb GV.Model.Prim.
 Require Import GV.Spec.UnitWrSpec GV.Model.UnitWr GV.Proofs.UnitWrProofs.
@@ -273,6 +273,43 @@ Proof. exact av_size_no_panic_lemma. Qed.
 Theorem write_no_panic : forall (dbg : bool) (cx : wcx) (v : aval),
   av_typed cx v -> av_write dbg cx v <> Panic.
 Proof. exact av_write_no_panic_lemma. Qed.
+
+(* calculate_offsets does not panic on any tree of well-typed values whose ids index the offset tables and
+   whose size (even with maximal code widths, `dsize_ub`) fits the address space — in either build mode;
+   the running offset stays below that bound *)
+Theorem calc_no_panic : forall (dbg : bool) (cx : wcx) (d : die) (st : cst),
+  die_typed cx d -> ids_in_range (die_ids d) st ->
+  cs_off st + dsize_ub (wc_enc cx) d < 2 ^ 64 ->
+  calc dbg (wc_enc cx) d st <> Panic /\
+  (forall st', calc dbg (wc_enc cx) d st = Ok st' -> cs_off st' <= cs_off st + dsize_ub (wc_enc cx) d).
+Proof. exact calc_no_panic_lemma. Qed.
+
+(* DebuggingInformationEntry::write, run with the tables calculate_offsets produced, does not panic either:
+   in particular its debug_assert_eq!(offsets.debug_info_offset(self.id), Some(w.offset())) holds at every
+   entry (that is offsets_exact), every code lookup is in range, the sibling subtraction does not underflow *)
+Theorem write_tree_no_panic : forall (dbg : bool) (cx : wcx) (d : die) (st st' : cst),
+  calc dbg (wc_enc cx) d st = Ok st' ->
+  agree_on (die_ids d) (wc_entries cx) (cs_entries st') ->
+  agree_on (die_ids d) (wc_codes cx) (cs_codes st') ->
+  (forall i c, nth_error (wc_codes cx) i = Some c -> c < 2 ^ 64) ->
+  die_typed cx d -> die_expr_ok d -> NoDup (die_ids d) ->
+  0 < cs_off st -> wc_unit_off cx <= cs_off st ->
+  cs_off st + dsize_ub (wc_enc cx) d < 2 ^ 64 ->
+  write_die dbg cx d (cs_off st) <> Panic.
+Proof. exact write_die_no_panic_lemma. Qed.
+
+Example no_panic_ex :
+  let cx := mkWcx ex_enc false 0 0 (cs_entries ex_st) (cs_codes ex_st) None [] [] [] [] in
+  die_typed cx ex_root /\ ids_in_range (die_ids ex_root) ex_st0 /\ cs_off ex_st0 + dsize_ub ex_enc ex_root < 2 ^ 64 /\
+  die_expr_ok ex_root.
+Proof.
+  cbv zeta. split.
+  { cbn. repeat split; repeat constructor; cbn; try lia. }
+  split.
+  { intros i Hi. cbn in Hi. cbn. intuition lia. }
+  split; [vm_compute; reflexivity|].
+  cbn. repeat split; repeat constructor; cbn; auto.
+Qed.
 
 Check form_size_write_len : forall dbg cx v ops, av_write dbg cx v = Ok ops -> expr_ok v -> ops_len ops < 2 ^ 64 ->
   av_size dbg (wc_enc cx) v = Ok (ops_len ops).
